@@ -36,6 +36,16 @@ func runC14(c *ShardCtx) {
 		},
 		refOpts: func(o *peg.Options) { o.MaxEval = 4000 }}
 	idx := 0
+	// cross family (cross.go): every body with a throw or a recovery operator next to every other
+	// construct, under every flag set
+	if !runCross(c, &idx, &crossSpec{maxSize: 3, gens: gens16, inputs: crossInputsSmall, opts: []rtapi.RunOpts{{MaxExpr: 800}},
+		keep: func(body *peg.Expr) bool {
+			t := false
+			body.Walk(func(e *peg.Expr) { t = t || e.K == peg.KThrow || e.K == peg.KRecover })
+			return t
+		}, scripts: crossPredScripts, nontrivial: fam.nontrivial, refOpts: fam.refOpts, cmp: core.CmpOpts{SkipNoMatch: true, EventKey: stateKey}}) {
+		return
+	}
 	for size := 1; size <= n; size++ {
 		for _, body := range en.Size(size) {
 			g0 := &peg.Grammar{Rules: []*peg.Rule{{Name: "S", Expr: body}}}
